@@ -429,7 +429,7 @@ func ParseHdrLine(buf []byte, offs int, h *Hdr, hb PHBodies) (int, ErrorHdr) {
 			case HdrTo:
 				if tob := hb.GetTo(); tob != nil && !tob.Parsed() {
 					h.state = hTo
-					n, err = ParseFromVal(buf, o, tob)
+					n, err = ParseNameAddrPVal(HdrTo, buf, o, tob)
 					if err == 0 { /* fix hdr.Val */
 						h.Val = tob.V
 					}
@@ -624,7 +624,7 @@ func ParseHdrLine(buf []byte, offs int, h *Hdr, hb PHBodies) (int, ErrorHdr) {
 			return n, err
 		case hTo: // continue to parsing
 			tob := hb.GetTo()
-			n, err := ParseFromVal(buf, i, tob)
+			n, err := ParseNameAddrPVal(HdrTo, buf, i, tob)
 			if err == 0 { /* fix hdr.Val */
 				h.Val = tob.V
 				h.state = hFIN
